@@ -316,13 +316,13 @@ def corrupt(lexemes, starts, tape, n, late=False, ml=False):
             # a letter or digit of another script inside an identifier (a name typed on another keyboard layout, a
             # pasted superscript, a full-width digit): the dialect's identifiers are ASCII, the file is valid UTF-8.
             # (not after `=`: a default-value expression may hold any characters)
-            # (nor anywhere after an `=` of the same statement -- that includes the `=` inside `operator==`,
-            #  `operator+=` ...: when the operator rule fails, `T operator== ( anything ) const ;` is read as a
-            #  variable named `operator` with the initialiser `= ( anything ) const`, see section 6 of DESIGN.md)
+            # (nor anywhere after an `=` of the same statement.  The `=` inside an operator's name does not count
+            #  since fix F25: before it, a failed `T operator== ( anything ) const ;` was re-read as a variable named
+            #  `operator` with the initialiser `= ( anything ) const`, see section 6 of DESIGN.md)
             def _after_eq(k):
                 j = k - 1
                 while j >= 0 and lex[j] not in (";", "{", "}"):
-                    if "=" in lex[j]:
+                    if "=" in lex[j] and not lex[j].startswith("operator"):
                         return True
                     j -= 1
                 return False
